@@ -144,3 +144,159 @@ var _ merger.TypeURLMap
 //@ loop 0 invariant[uniq] uniq != nil && forallT(n, string, has(uniq, n) ==> exists(m, 0, len(res), respKey(res[m].(*ast.Field)) == n)) @using uniq, sel, own
 //@ loop 0 invariant[keys-kept] forall(i, 0, it, exists(m, 0, len(res), respKey(res[m].(*ast.Field)) == respKey(fields[i]))) @using keys-kept, uniq, sel, own
 //@ end
+
+// ---- C07: the planner runs inside the per-operation closure for every validated operation: none of its
+// instructions may panic (thin, safety-only contracts: what the functions compute is not specified here) ----
+//@ assume-nonnil-elems *ast.Argument
+//@ assume-nonnil-elems *ast.ArgumentDefinition
+//@ assume-nonnil-elems *ast.FieldDefinition
+//@ assume-nonnil-field ast.Argument.Value
+//@ assume-nonnil-field ast.Field.Definition
+//@ assume-nonnil-field ast.FieldDefinition.Type
+
+//@ func createQueryPlanSteps
+//@ props C07
+//@ requires ctx != nil
+//@ assumes[routing-table] merger.wfTM(ctx.TypeURLMap)
+//@ assumes[schema] forallT(k, string, has(ctx.Schema.Types, k) ==> ctx.Schema.Types[k] != nil)
+//@ end
+
+//@ func formatSelectionSetForInterface
+//@ props C07
+//@ requires ctx != nil
+//@ assumes[routing-table] merger.wfTM(ctx.TypeURLMap)
+//@ end
+
+//@ func routeSelectionSet
+//@ props C07
+//@ requires ctx != nil
+//@ assumes[routing-table] merger.wfTM(ctx.TypeURLMap)
+//@ assumes[schema] forallT(k, string, has(ctx.Schema.Types, k) ==> ctx.Schema.Types[k] != nil)
+//@ end
+
+//@ func filterSelectionSetByLoc
+//@ props C07
+//@ requires ctx != nil
+//@ assumes[routing-table] merger.wfTM(ctx.TypeURLMap)
+//@ end
+
+//@ func groupSelectionSetForNodeField
+//@ props C07
+//@ requires ctx != nil
+//@ assumes[routing-table] merger.wfTM(ctx.TypeURLMap)
+//@ assumes[schema] forallT(k, string, has(ctx.Schema.Types, k) ==> ctx.Schema.Types[k] != nil)
+//@ end
+
+//@ func addIDFieldToSelectionSet
+//@ props C07
+//@ end
+
+//@ func addTypenameFieldToSelectionSet
+//@ props C07
+//@ end
+
+//@ func isContainsField
+//@ props C07
+//@ end
+
+//@ func convertSelectionSetToNodeQuery
+//@ props C07
+//@ end
+
+//@ func addFieldToNodeQuery
+//@ props C07
+//@ end
+
+//@ func selectionSetHasFieldNamed
+//@ props C07
+//@ end
+
+//@ func (*PlanningContext).GetURL
+//@ props C07
+//@ requires pc != nil
+//@ assumes[routing-table] merger.wfTM(pc.TypeURLMap)
+//@ end
+
+//@ assume-nonnil-elems *ast.ChildValue
+//@ assume-nonnil-field ast.ChildValue.Value
+// a validated document: fragments are resolved, selections know the type they apply to
+//@ assume-nonnil-field ast.FragmentSpread.Definition
+//@ assume-nonnil-field ast.FragmentSpread.ObjectDefinition
+//@ assume-nonnil-field ast.InlineFragment.ObjectDefinition
+//@ assume-nonnil-field ast.Field.ObjectDefinition
+//@ assume-nonnil-boxed *ast.FragmentSpread
+
+//@ func sanitizeSelectionSet
+//@ props C07
+//@ returns sel, sf
+//@ requires ctx != nil
+//@ ensures[scrub-map] sf != nil
+//@ loop 0 invariant[scrub-map] scrubFields != nil
+//@ assumes[routing-table] merger.wfTM(ctx.TypeURLMap)
+//@ assumes[schema] forallT(k, string, has(ctx.Schema.Types, k) ==> ctx.Schema.Types[k] != nil)
+//@ end
+
+//@ func sanitizeUnionInlineFragment
+//@ props C07
+//@ requires ctx != nil && selection != nil
+//@ assumes[schema] forallT(k, string, has(ctx.Schema.Types, k) ==> ctx.Schema.Types[k] != nil)
+//@ end
+
+//@ func sanitizeInterfaceInlineFragment
+//@ props C07
+//@ requires ctx != nil && selection != nil
+//@ assumes[schema] forallT(k, string, has(ctx.Schema.Types, k) ==> ctx.Schema.Types[k] != nil)
+//@ end
+
+//@ func setMissingScrubFieldsForFieldSelectionSet
+//@ props C07
+//@ requires ctx != nil && field != nil && scrubFields != nil
+//@ ensures[same] result == scrubFields
+//@ assumes[schema] forallT(k, string, has(ctx.Schema.Types, k) ==> ctx.Schema.Types[k] != nil)
+//@ end
+
+//@ func addScrubFieldsToSelectionSet
+//@ props C07
+//@ requires ctx != nil
+//@ assumes[routing-table] merger.wfTM(ctx.TypeURLMap)
+//@ assumes[schema] forallT(k, string, has(ctx.Schema.Types, k) ==> ctx.Schema.Types[k] != nil)
+//@ assume-nonnil-elems *ast.Definition
+//@ end
+
+//@ func addSelectionSetToSanitizedResult
+//@ props C07
+//@ end
+
+//@ func (ScrubFields).hash
+//@ props C07
+//@ end
+
+//@ func (ScrubFields).unhash
+//@ props C07
+//@ end
+
+//@ func (ScrubFields).Set
+//@ props C07
+//@ requires sf != nil
+//@ end
+
+//@ func (ScrubFields).Get
+//@ props C07
+//@ end
+
+//@ func (ScrubFields).Merge
+//@ props C07
+//@ requires sf != nil
+//@ end
+
+//@ func (ScrubFields).clean
+//@ props C07
+//@ end
+
+//@ func getVariablesList
+//@ props C07
+//@ end
+
+//@ func getArgumentListChildrenVariablesList
+//@ props C07
+//@ end
